@@ -541,6 +541,14 @@ class Runner:
                 self.coll_writes[coll] += 1
                 self.last["acked"].append(k)
             self.last["ack"] = bool(self.last["acked"])
+            if mc is not None:
+                self.removed_props = getattr(self, "removed_props", {})
+                for k in self.last["removed"]:
+                    if k not in mc.props:
+                        self.removed_props[(coll, k)] = True
+                for k in self.last["acked"]:
+                    if k in mc.props:
+                        self.removed_props.pop((coll, k), None)
         if not self.last["ack"]:
             self.stats["noack:write"] += 1
         return {coll}
@@ -597,6 +605,47 @@ class Runner:
             self.stats["5xx"] += 1
             self.note5xx(st, r)
         return set()
+
+    def op_LOCKED(self, st):
+        """The inner write request arrives while somebody else (another worker, an external git command,
+        a crashed writer) holds the repository's lock file.  Whatever the answer, the usual oracles apply:
+        a refusal must leave everything - including the working tree - as it was."""
+        inner = st["inner"]
+        coll = SLOTS[inner["coll"]]
+        mc = self.model.colls.get(coll)
+        locks = []
+        if mc is not None:
+            fs = self.world.fs_path(coll)
+            if mc.bare:
+                try:
+                    with open(os.path.join(fs, "HEAD")) as f:
+                        ref = f.read().strip().split("ref: ", 1)[-1]
+                    locks.append(os.path.join(fs, ref + ".lock"))
+                except OSError:
+                    pass
+            else:
+                locks.append(os.path.join(fs, ".git", "index.lock"))
+        made = []
+        for lk in locks:
+            try:
+                os.makedirs(os.path.dirname(lk), exist_ok=True)
+                fd = os.open(lk, os.O_CREAT | os.O_EXCL | os.O_WRONLY)
+                os.close(fd)
+                made.append(lk)
+            except OSError:
+                pass
+        try:
+            touched = getattr(self, "op_" + inner["op"])(inner)
+        finally:
+            for lk in made:
+                try:
+                    os.unlink(lk)
+                except OSError:
+                    pass
+        self.stats["locked-requests"] += 1
+        if not self.last.get("ack"):
+            self.stats["locked-requests-refused"] += 1
+        return touched
 
     def op_AUDIT(self, st):
         self.last = {"op": "AUDIT", "ack": False}
@@ -752,12 +801,16 @@ class Runner:
                 sel = [n for n in names if n.endswith(".ics" if kind == "calendar" else ".vcf")]
                 if sel:
                     hrefs = [self.world.url(self.member_path(coll, n)) for n in sel]
+                    if self.step_no % 2:
+                        hrefs = hrefs[:1] + hrefs  # clients do repeat hrefs; the views must agree all the same
                     r = self.req(fe, "REPORT", coll + "/", [("Depth", "1"), dav.XML_CT], dav.multiget_body(kind, hrefs, data=False))
                     ms = dav.parse_ms(r)
                     if ms is not None:
                         for resp in ms.responses:
                             n = name_from_href(resp.href)
                             if n in mc.members and resp.prop_text(P_ETAG) is not None:
+                                if "multiget" in views[n] and views[n]["multiget"] != resp.prop_text(P_ETAG):
+                                    self.violation("etag-views", "multiget-two-etags", f"{coll}/{n}: one multiget answers this href with ETags {views[n]['multiget']} and {resp.prop_text(P_ETAG)}")
                                 views[n]["multiget"] = resp.prop_text(P_ETAG)
                     body = dav.calquery_body(dav.MATCH_ALL_CAL, data=False) if kind == "calendar" else dav.abquery_body(None, data=False)
                     r = self.req(fe, "REPORT", coll + "/", [("Depth", "1"), dav.XML_CT], body)
@@ -1100,16 +1153,6 @@ class Runner:
     def obs_props(self, step):
         fe = step.get("afe", "wsgi") if step else "wsgi"
         self.removed_props = getattr(self, "removed_props", {})
-        last = self.last
-        if last.get("op") == "PROPPATCH" and step is not None:
-            mc = self.model.colls.get(last["coll"])
-            if mc is not None:
-                for k in last.get("removed", []):
-                    if k not in mc.props:
-                        self.removed_props[(last["coll"], k)] = True
-                for k in last.get("acked", []):
-                    if k in mc.props:
-                        self.removed_props.pop((last["coll"], k), None)
         for coll, mc in self.model.colls.items():
             r = self.req(fe, "PROPFIND", coll + "/", [("Depth", "0"), dav.XML_CT], dav.propfind_body(self.SETTABLE + [P_RT]))
             ms = dav.parse_ms(r)
@@ -1778,6 +1821,8 @@ class Runner:
         for key in [k for k in self.cur_etag if k[0] not in model.colls]:
             del self.cur_etag[key]
         # the touched path must be absent if the model says so
+        if step is not None and step.get("op") == "LOCKED":
+            step = step["inner"]
         if step is not None and step.get("name") is not None and step["op"] in ("PUT", "DELETE", "GET"):
             coll = SLOTS[step["coll"]]
             mc = model.colls.get(coll)
